@@ -4,8 +4,8 @@ import RSV.Proofs.GenSubMatrix
 
 `RSV.Gen.matrix_SubMatrix` is the statement-by-statement translation of `matrix.go: (matrix) SubMatrix`, regenerated
 from the current Go source on every run.  `C17m_Invert` / `C17m_buildMatrix` use it on the two windows those
-functions take; the reconstruction path (`reedsolomon.go: reconstruct`) and `buildMatrixJerasure` rely on it for
-arbitrary windows.  For EVERY window `[r0,r1) × [c0,c1)` with `r0 < r1 ≤ n`, `c0 < c1 ≤ w` of an `n × w` matrix
+functions take (`0,n,n,2n` and `0,0,d,d`, its only in-package call sites); this theorem pins the method's whole
+contract.  For EVERY window `[r0,r1) × [c0,c1)` with `r0 < r1 ≤ n`, `c0 < c1 ≤ w` of an `n × w` matrix
 (`n, w < 2^62`, below Go's `int` wrap-around) the Go code returns the `(r1-r0) × (c1-c0)` matrix whose `(i,j)` entry
 is the input's `(r0+i, c0+j)` entry, with a `nil` error; it never panics there.
 -/
